@@ -2,14 +2,14 @@
 from common_props import COMMON_TRUSTED
 
 CFG = {
-    "engines": [["frag", 250, 4000]],
+    "engines": [["frag", 250, 4000], ["msgwire", 25, 300]],
     "rule": "frag/fragw: writer scripts in the API grammar (Begin (Write|Flush)* Close)^3 with argument lengths around fragment "
             "boundaries (0..3, cap-3..cap+3, k*cap-3..k*cap+3, many-frame), capacities 5..40/64/300/4096 (initial and continuation "
             "independently), write splits (whole, byte-wise, random, boundary-1..+1), flushes incl. double and data-less ones, all "
             "checksum types, through the real fragmentingWriter over a capturing fragmentSender; fragr: the emitted fragments read by "
             "the real fragmentingReader with read patterns helper(ArgReadHelper.Read), exact-length+Close, byte-wise to EOF, random "
             "sizes to EOF, exact then EOF probe; fragparse: valid and hostile fragment payloads through parseInboundFragment + chunk "
-            "loop. fragwire: real client/server over loopback, frames observed on the wire by a proxy. Non-trivial = more than one "
+            "loop. msgwire: a real client channel against a raw TCP peer built from the protocol document (production frame capacity, multi-frame requests and responses in both directions: the peer reassembles the arguments per the specification and verifies every checksum independently). Non-trivial = more than one "
             "fragment; distinct by input.",
     "trusted_base": COMMON_TRUSTED + [
         "modelled by hand (tied by correspondence): fragmentingWriter (BeginArgument/Write/writeAsFits/Flush/Close, fragment finish), "
